@@ -194,6 +194,26 @@ pub fn random_path(rng: &mut Rng, win: bool) -> Vec<u8> {
     v
 }
 
+/// Inputs harvested by `check` from op lines on which model and implementation disagreed
+/// (file named by $VERIF_EXTRA, one `x<hex>` per line).  They are added to every oracle domain
+/// so that the search for a failing input starts where the correspondence broke.  Never set
+/// when op lines are generated.
+pub fn extras() -> Vec<Vec<u8>> {
+    match std::env::var("VERIF_EXTRA") {
+        Ok(p) => std::fs::read_to_string(p).unwrap_or_default().lines().filter_map(|l| unhex(l.trim())).take(400).collect(),
+        Err(_) => Vec::new(),
+    }
+}
+
+fn with_extras(mut v: Vec<Vec<u8>>) -> Vec<Vec<u8>> {
+    let mut e = extras();
+    if !e.is_empty() {
+        e.extend(v.drain(..));
+        return dedup_keep_order(e);
+    }
+    dedup_keep_order(v)
+}
+
 pub fn tier_is_thorough(tier: &str) -> bool {
     tier == "thorough"
 }
@@ -207,7 +227,7 @@ pub fn dom_unix(tier: &str, seed: u64) -> Vec<Vec<u8>> {
     for _ in 0..(if t { 50_000 } else { 3_000 }) {
         v.push(random_path(&mut rng, false));
     }
-    dedup_keep_order(v)
+    with_extras(v)
 }
 
 /// Unix domain small enough for pairs
@@ -219,7 +239,7 @@ pub fn dom_unix_small(tier: &str, seed: u64) -> Vec<Vec<u8>> {
     for _ in 0..(if t { 400 } else { 100 }) {
         v.push(random_path(&mut rng, false));
     }
-    dedup_keep_order(v)
+    with_extras(v)
 }
 
 /// Windows unary domain: prefix seeds x tails, near-miss prefix alphabet, random
@@ -247,7 +267,7 @@ pub fn dom_win(tier: &str, seed: u64) -> Vec<Vec<u8>> {
     for _ in 0..(if t { 50_000 } else { 3_000 }) {
         v.push(random_path(&mut rng, true));
     }
-    dedup_keep_order(v)
+    with_extras(v)
 }
 
 pub fn dom_win_small(tier: &str, seed: u64) -> Vec<Vec<u8>> {
@@ -270,7 +290,7 @@ pub fn dom_win_small(tier: &str, seed: u64) -> Vec<Vec<u8>> {
     for _ in 0..(if t { 400 } else { 100 }) {
         v.push(random_path(&mut rng, true));
     }
-    dedup_keep_order(v)
+    with_extras(v)
 }
 
 /// arguments for joins: short relative / rooted / prefixed / hostile
@@ -294,5 +314,5 @@ pub fn dom_args(win: bool, tier: &str, seed: u64) -> Vec<Vec<u8>> {
     for _ in 0..(if t { 300 } else { 60 }) {
         v.push(random_path(&mut rng, win));
     }
-    dedup_keep_order(v)
+    with_extras(v)
 }
